@@ -63,9 +63,113 @@ pub fn make_ctx(property: &str, tier: Tier) -> Ctx {
     }
 }
 
+/// Run `vp <args>` as a child process. A stack overflow or an abort inside the library cannot be caught
+/// in-process, so `run` and `replay` execute in a child and the parent interprets a death by signal.
+fn spawn_child(args: &[String], env: &[(&str, String)], quiet: bool) -> Option<std::process::ExitStatus> {
+    let exe = std::env::current_exe().ok()?;
+    let mut c = std::process::Command::new(exe);
+    c.args(&args[1..]).env("VERIF_CHILD", "1");
+    for (k, v) in env {
+        c.env(k, v);
+    }
+    if quiet {
+        c.stdout(std::process::Stdio::null()).stderr(std::process::Stdio::null());
+    }
+    c.status().ok()
+}
+
+fn died(st: &std::process::ExitStatus) -> Option<String> {
+    use std::os::unix::process::ExitStatusExt;
+    if let Some(sig) = st.signal() {
+        return Some(format!("signal {}", sig));
+    }
+    match st.code() {
+        Some(c) if c == 0 || c == 1 || c == 2 => None,
+        Some(c) => Some(format!("exit status {}", c)),
+        None => Some("unknown".into()),
+    }
+}
+
+fn supervise_run(args: &[String]) -> i32 {
+    let id = args.get(2).cloned().unwrap_or_default();
+    let Some(st) = spawn_child(args, &[], false) else {
+        eprintln!("HARNESS-ERROR: cannot start the child process");
+        return 2;
+    };
+    let Some(how) = died(&st) else { return st.code().unwrap_or(2) };
+    // the run died (stack overflow, abort, ...): run it again with every worker journaling the case in flight
+    eprintln!("[{}] the checking process died ({}); running again with a journal of the cases in flight", id, how);
+    let replay_dir = std::env::var_os("VERIF_REPLAY_DIR").map(PathBuf::from).unwrap_or_else(|| verif_dir().join("replays"));
+    let jdir = replay_dir.join(format!("journal-{}", id));
+    let _ = std::fs::remove_dir_all(&jdir);
+    let _ = std::fs::create_dir_all(&jdir);
+    let Some(st2) = spawn_child(args, &[("VERIF_JOURNAL", jdir.to_string_lossy().to_string())], false) else { return 2 };
+    if died(&st2).is_none() {
+        let _ = std::fs::remove_dir_all(&jdir);
+        if st2.code() == Some(0) {
+            println!("INCONCLUSIVE property={} the checking process died once ({}) and completed on a second run", id, how);
+            return 2;
+        }
+        return st2.code().unwrap_or(2);
+    }
+    // each journal file holds the case its thread was evaluating: replay them one by one in a child
+    let mut files: Vec<PathBuf> = std::fs::read_dir(&jdir).map(|rd| rd.flatten().map(|e| e.path()).collect()).unwrap_or_default();
+    files.sort();
+    let mut k = 0;
+    for f in files {
+        let Ok(text) = std::fs::read_to_string(&f) else { continue };
+        let Ok(v) = serde_json::from_str::<Value>(&text) else { continue };
+        let section = v["section"].as_str().unwrap_or("").to_string();
+        let path = replay_dir.join(format!("{}-{}-crash-{}.json", id, section, k));
+        k += 1;
+        let rep = json!({
+            "property": id, "section": section, "signature": "crash:process-died",
+            "message": format!("the process evaluating this case died ({}): stack overflow or abort inside a library call", how),
+            "input": v["input"],
+        });
+        let _ = std::fs::write(&path, serde_json::to_string_pretty(&rep).unwrap() + "\n");
+        let rargs = vec![args[0].clone(), "replay".to_string(), path.to_string_lossy().to_string()];
+        match spawn_child(&rargs, &[], true) {
+            Some(st3) if died(&st3).is_some() => {
+                let _ = std::fs::remove_dir_all(&jdir);
+                println!("FAIL section={} sig=crash:process-died :: a library call kills the process on this input ({})", section, died(&st3).unwrap());
+                println!("VIOLATION property={} replay={}", id, path.display());
+                return 1;
+            }
+            _ => {
+                let _ = std::fs::remove_file(&path);
+            }
+        }
+    }
+    let _ = std::fs::remove_dir_all(&jdir);
+    println!("INCONCLUSIVE property={} the checking process died twice ({}), but no single case in flight reproduces it alone", id, how);
+    2
+}
+
+fn supervise_replay(args: &[String]) -> i32 {
+    let path = args.get(2).cloned().unwrap_or_default();
+    let Some(st) = spawn_child(args, &[], false) else { return 2 };
+    match died(&st) {
+        None => st.code().unwrap_or(2),
+        Some(how) => {
+            let id = std::fs::read_to_string(&path).ok().and_then(|s| serde_json::from_str::<Value>(&s).ok()).and_then(|v| v["property"].as_str().map(|s| s.to_string())).unwrap_or_default();
+            println!("FAIL crash:process-died: the process died while replaying ({})", how);
+            println!("VIOLATION property={} replay={}", id, path);
+            1
+        }
+    }
+}
+
 pub fn main() -> i32 {
     crate::meter::install_hook();
     let args: Vec<String> = std::env::args().collect();
+    if std::env::var_os("VERIF_CHILD").is_none() {
+        match args.get(1).map(|s| s.as_str()) {
+            Some("run") => return supervise_run(&args),
+            Some("replay") => return supervise_replay(&args),
+            _ => {}
+        }
+    }
     match args.get(1).map(|s| s.as_str()) {
         Some("run") => {
             let id = args.get(2).cloned().unwrap_or_default();
